@@ -1,7 +1,7 @@
 """Rules over the VM (engine E1): C19, C20.A1, C17, C05, C06 and the VM-side clauses of
 C01 / C03.  Every rule is evaluated on the effect summaries computed from the *current*
 VM/src/vm.cpp; nothing here matches source text or positions."""
-from .facts import AnalysisBroken, show, walk_stmts, walk_all_exprs, locstr, stmt_children
+from .facts import AnalysisBroken, show, walk_stmts, walk_all_exprs, locstr, stmt_children, strip_casts
 from .symex import (Val, C, INT_MAX, is_const, lin_parts, t_add, t_show, lp_show)
 from .vmfx import VMModel, fmt_iv, THIS
 
@@ -539,10 +539,10 @@ def execute_shape(ex):
             if tgt.get('k') == 'member':
                 return ('bad', 'execute() writes VM state directly: %s' % show(e))
     if len(es) != 1:
-        return ('unknown', 'more than one executeSingle call site in execute()')
+        return execute_by_cases(ex, es)
     loops = [s for s in walk_stmts(ex['body']) if s['k'] in ('while', 'do', 'for')]
     if len(loops) != 1:
-        return ('unknown', 'execute() is not a single loop')
+        return execute_by_cases(ex, es)
     lp = loops[0]
     call = es[0]
 
@@ -569,7 +569,131 @@ def execute_shape(ex):
                 if 'break' in kinds or 'return' in kinds:
                     return ('ok', 'loop { if (executeSingle()) leave; }')
                 return ('bad', 'execute() does not leave its loop when executeSingle() returns true')
-    return ('unknown', 'unrecognised loop shape in execute()')
+    return execute_by_cases(ex, [call])
+
+
+class _Leave(Exception):
+    def __init__(self, kind):
+        self.kind = kind
+
+
+def execute_by_cases(ex, calls):
+    """Any other control skeleton around the single executeSingle() call (do/while with a flag, for(;;) with a
+    local, ...): the body is evaluated over the booleans for every answer sequence false^n true (n = 0..3) and
+    for six times false; it must ask exactly n+1 times and return, resp. still be asking.  Only boolean locals,
+    !, &&, ||, ==, != and structured statements are understood; anything else is 'unknown'."""
+    class Unsupported(Exception):
+        pass
+
+    def run(answers, limit):
+        env = {}
+        asked = [0]
+
+        def ev(e):
+            e = strip_casts(e)
+            if e is None:
+                raise Unsupported('empty expression')
+            k = e.get('k')
+            if any(e is c_ for c_ in calls):
+                if asked[0] >= limit:
+                    raise _Leave('limit')
+                asked[0] += 1
+                return answers[asked[0] - 1] if asked[0] - 1 < len(answers) else False
+            if k == 'paren':
+                return ev(e['e'])
+            if k == 'bool':
+                return bool(e['v'])
+            if k == 'int':
+                return e['v']
+            if k == 'ref' and e.get('dk') == 'var':
+                if e['d'] not in env:
+                    raise Unsupported('read of %s before it is set' % e.get('name'))
+                return env[e['d']]
+            if k == 'un' and e['op'] == '!':
+                return not ev(e['e'])
+            if k == 'bin' and e['op'] == '&&':
+                return bool(ev(e['l'])) and bool(ev(e['r']))
+            if k == 'bin' and e['op'] == '||':
+                return bool(ev(e['l'])) or bool(ev(e['r']))
+            if k == 'bin' and e['op'] in ('==', '!='):
+                a, b = ev(e['l']), ev(e['r'])
+                return (a == b) if e['op'] == '==' else (a != b)
+            if k == 'assign' and strip_casts(e['l']).get('k') == 'ref' and strip_casts(e['l']).get('dk') == 'var':
+                v = ev(e['r'])
+                env[strip_casts(e['l'])['d']] = v
+                return v
+            if k == 'cond':
+                return ev(e['t']) if ev(e['c']) else ev(e['f'] if 'f' in e else e['e'])
+            raise Unsupported(show(e)[:60])
+
+        def st(s):
+            if s is None:
+                return
+            k = s['k']
+            if k == 'block':
+                for c in s['s']:
+                    st(c)
+            elif k == 'expr':
+                ev(s['e'])
+            elif k == 'decl':
+                for v in s['vars']:
+                    if v.get('init') is not None:
+                        env[v['d']] = ev(v['init'])
+            elif k == 'if':
+                if s.get('var') or s.get('init'):
+                    raise Unsupported('if with initialiser')
+                if ev(s['c']):
+                    st(s['t'])
+                else:
+                    st(s.get('e'))
+            elif k in ('while', 'do', 'for'):
+                if k == 'for' and s.get('init') is not None:
+                    st(s['init']) if s['init'].get('k') in ('decl', 'expr', 'block') else ev(s['init'])
+                first = True
+                while True:
+                    if not (k == 'do' and first):
+                        if s.get('c') is not None and not ev(s['c']):
+                            break
+                    first = False
+                    try:
+                        st(s['body'])
+                    except _Leave as l:
+                        if l.kind == 'break':
+                            break
+                        if l.kind != 'continue':
+                            raise
+                    if k == 'for' and s.get('inc') is not None:
+                        ev(s['inc'])
+            elif k == 'break':
+                raise _Leave('break')
+            elif k == 'continue':
+                raise _Leave('continue')
+            elif k == 'return':
+                if s.get('e') is not None:
+                    ev(s['e'])
+                raise _Leave('return')
+            elif k in ('null', 'empty'):
+                pass
+            else:
+                raise Unsupported('statement %s' % k)
+        try:
+            st(ex['body'])
+            return asked[0], 'returned'
+        except _Leave as l:
+            return asked[0], ('returned' if l.kind == 'return' else l.kind)
+    try:
+        for n in range(4):
+            asked, how = run([False] * n + [True], 12)
+            if how != 'returned' or asked != n + 1:
+                if asked > n + 1 or how == 'limit':
+                    return ('bad', 'execute() goes on after executeSingle() returned true (asked %d times for the answers %s)' % (asked, ['false'] * n + ['true']))
+                return ('bad', 'execute() returns although executeSingle() has not returned true yet (after %d answer(s) false)' % asked)
+        asked, how = run([False] * 6, 6)
+        if how != 'limit':
+            return ('bad', 'execute() returns although executeSingle() has not returned true yet (after %d answer(s) false)' % asked)
+        return ('ok', 'evaluated for the answers false^n true (n = 0..3) and false^6: asks exactly n+1 times, returns only after true')
+    except Unsupported as u:
+        return ('unknown', 'unrecognised loop shape in execute() (%s)' % u)
 
 
 # =============================================================================== C06
